@@ -105,7 +105,7 @@ theorem ival_translate (t : List Rat) (f : Fld) (hf : f.mesh.Inv) (dir : Dir) (c
 
 theorem translate_wf (t : List Rat) (f : Fld) (hf : WF f) : WF (translate t f) := by
   obtain ⟨⟨⟨hpos, hmax, hdims, hunits, hdup, hlt⟩, hnlen, hnpos⟩, hs⟩ := hf
-  refine ⟨⟨⟨?_, ?_, ?_, ?_, hdup, ?_⟩, ?_, hnpos⟩, hs⟩
+  refine ⟨⟨⟨?_, ?_, ?_, ?_, hdup, ?_⟩, ?_, ?_⟩, hs⟩
   · simp [translate, shiftRegion]; exact hpos
   · simp [translate, shiftRegion]; exact hmax
   · simp [translate, shiftRegion]; exact hdims
@@ -118,5 +118,11 @@ theorem translate_wf (t : List Rat) (f : Fld) (hf : WF f) : WF (translate t f) :
     linarith
   · show f.mesh.n.length = (shiftRegion t f.mesh.region).pmin.length
     simp [shiftRegion]; exact hnlen
+  · intro a ha
+    have ha' : a < f.mesh.ndim := by
+      have : (translate t f).mesh.ndim = f.mesh.ndim := by
+        simp [translate, Mesh.ndim, Region.ndim, shiftRegion]
+      omega
+    exact hnpos a ha'
 
 end DFV.C06
